@@ -689,6 +689,10 @@ fn fixed_programs(what: &str) -> Vec<(Prog, bool)> {
             (vec![vec![n("ft"), n("nt")], vec![n("lt"), n("pt")]], false),
             (vec![vec![Op::Child(1)], vec![Op::Child(1)], vec![Op::Child(1)]], false),
             (vec![vec![n("fc"), n("ns")], vec![Op::Child(1), n("ps")]], true),
+            (vec![vec![n("lcn"), n("lcn")], vec![n("lcn"), n("lcn")]], false),
+            (vec![vec![n("lcn"), n("lc")], vec![n("lc"), n("fcn")]], false),
+            (vec![vec![n("lcn"), n("lcn"), n("ps")], vec![n("fcn"), n("fcn")]], false),
+            (vec![vec![n("lt"), n("pt")], vec![n("lcn"), n("fc"), n("ns")]], false),
         ],
         "lifecycle" => vec![
             (vec![vec![n("fc")], vec![n("fc")]], true),
@@ -751,6 +755,11 @@ pub fn conc_trees() -> Vec<RefTree> {
         RefTree::Node(0, vec![RefTree::Node(1, vec![RefTree::Tok(10, "a".into())]), RefTree::Tok(10, "b".into()), RefTree::Node(2, vec![])]),
         RefTree::Node(0, vec![RefTree::Node(1, vec![RefTree::Node(2, vec![RefTree::Tok(11, "é".into())]), RefTree::Tok(10, "".into())]), RefTree::Tok(12, "+".into())]),
         RefTree::Node(0, vec![RefTree::Node(3, vec![]), RefTree::Node(1, vec![RefTree::Tok(10, "x".into()), RefTree::Tok(10, "y".into())])]),
+        // nodes that do not start at offset 0, nested: offsets computed from the back and from the front must agree
+        RefTree::Node(0, vec![
+            RefTree::Tok(10, "a".into()),
+            RefTree::Node(1, vec![RefTree::Tok(11, "é".into()), RefTree::Node(2, vec![RefTree::Tok(10, "c".into())]), RefTree::Node(3, vec![RefTree::Tok(10, "dd".into())])]),
+        ]),
     ]
 }
 
@@ -782,7 +791,8 @@ pub fn run_conc(what: &str, seed: u64, tier: &str, outdir: &str) {
     let mut exhaustive_programs = 0u64;
     let _ = std::fs::remove_file(format!("{}/fatal.json", outdir));
     for (pi, (prog, root_first)) in programs.iter().enumerate() {
-        let tree = &trees[pi % trees.len()];
+        // the back-to-front programs of the traversal suite belong to the nested tree
+        let tree = if what == "traverse" && (8..12).contains(&pi) { &trees[3] } else { &trees[pi % trees.len()] };
         *crate::sched::FATAL.lock().unwrap() =
             Some((outdir.to_string(), format!("tree={} prog={} root_first={}", tree.dump(), show_prog(prog), root_first)));
         let mut handle = |e: Exec, mode: &str, ops: &mut Vec<String>, imp: &mut Vec<String>, oracle: &mut Vec<String>, case: &mut usize| {
